@@ -24,6 +24,7 @@ class Monitor:
         self.notes = []
         self.exhaustive = None
         self.rule = None
+        self.extra_distinct = 0
 
     # --- recording ------------------------------------------------------
     def ev(self, n=1):
@@ -62,6 +63,7 @@ class Monitor:
     def merge(self, o):
         self.evals += o.evals
         self.cells |= o.cells
+        self.extra_distinct += o.extra_distinct
         self.counters.update(o.counters)
         for k, c in o.hists.items():
             self.hists[k].update(c)
@@ -160,7 +162,7 @@ def finish(prop, level, tier, seed, mon, t0, rule, assumptions, extra_cov=None, 
         print("INCONCLUSIVE: %s" % m)
     cov = {
         "evaluations": int(mon.evals),
-        "distinct_nontrivial": int(len(mon.cells)),
+        "distinct_nontrivial": int(len(mon.cells) + mon.extra_distinct),
         "rule": rule,
         "samples": mon.samples if mon.samples else [],
         "counters": {k: int(v) for k, v in sorted(mon.counters.items())},
@@ -187,7 +189,7 @@ def finish(prop, level, tier, seed, mon, t0, rule, assumptions, extra_cov=None, 
     with open(os.path.join(ROOT, "evidence", "%s.json" % prop), "w") as f:
         json.dump(ev, f, indent=1, default=_js)
     print("%s tier=%s seed=%s: %d evaluations, %d distinct non-trivial cases, %d new violations, %d inconclusive items, %.1fs"
-          % (prop, tier, seed, mon.evals, len(mon.cells), len(new), len(mon.inconclusive), time.time() - t0))
+          % (prop, tier, seed, mon.evals, len(mon.cells) + mon.extra_distinct, len(new), len(mon.inconclusive), time.time() - t0))
     for k, v in sorted(mon.counters.items()):
         print("  %-40s %d" % (k, v))
     if new:
